@@ -184,6 +184,61 @@ Proof.
   inversion H; subst. lia.
 Qed.
 
+(* ---- predictor row buffers ---- *)
+Lemma rowParams_exact : forall p c b col rs rl bpp,
+  predictorRowParams p c b col = Ok (rs, rl, bpp) ->
+  0 <= b /\ 0 <= c /\ 0 <= col /\
+  rs = (b * c * col + 7) / 8 /\ rl = (if p =? 2 then rs else rs + 1) /\
+  0 <= rs /\ rl <= maxInt64 /\ b * c * col + 7 <= maxInt64.
+Proof.
+  intros p c b col rs rl bpp H. pose proof maxInt64_val as HM.
+  unfold predictorRowParams, mul64, addInt in H.
+  destruct ((0 <=? b) && (0 <=? c) && (b * c <=? maxInt64)) eqn:E1; [|discriminate].
+  destruct ((0 <=? b * c) && (0 <=? 7) && (b * c + 7 <=? maxInt64)) eqn:E2; [|discriminate].
+  destruct ((0 <=? b * c) && (0 <=? col) && (b * c * col <=? maxInt64)) eqn:E3; [|discriminate].
+  destruct ((0 <=? b * c * col) && (0 <=? 7) && (b * c * col + 7 <=? maxInt64)) eqn:E4; [|discriminate].
+  assert (Hrs : 0 <= (b * c * col + 7) / 8 <= b * c * col + 7).
+  { split; [apply Z.div_pos; lia|]. apply Z.div_le_upper_bound; lia. }
+  destruct (p =? 2) eqn:Ep.
+  - inversion H; subst. repeat split; lia.
+  - destruct ((0 <=? (b * c * col + 7) / 8) && (0 <=? 1) && ((b * c * col + 7) / 8 + 1 <=? maxInt64)) eqn:E5;
+      [|discriminate].
+    inversion H; subst. repeat split; lia.
+Qed.
+
+(* the row pre-check of decodePostProcess, for BOTH decode modes (every maxLen): whenever the row
+   buffers are allocated, a row fits the decode limit in force *)
+Lemma row_buffers_le_limit : forall mdb p c b col maxLen rs rl,
+  rowGuard mdb p c b col maxLen = RAlloc rs rl ->
+  let limit := decodeLimit mdb (-1) in
+  (0 <= limit -> rl <= limit) /\ (0 < mdb -> rl <= mdb) /\ (mdb = 0 -> rl <= DefaultMaxDecodeBytes) /\
+  0 <= rs <= rl /\ rl <= rs + 1 /\ rl <= maxInt64.
+Proof.
+  intros mdb p c b col maxLen rs rl H limit. pose proof dmdb_val as HD.
+  unfold rowGuard in H. destruct p as [p|]; [|discriminate].
+  destruct (p =? 1); [discriminate|]. destruct (negb (validPredictor p)); [discriminate|].
+  destruct (flateParameters c b col) as [[[c' b'] col']|]; [|discriminate].
+  destruct (predictorRowParams p c' b' col') as [[[rs' rl'] bpp]|] eqn:E; [|discriminate].
+  destruct ((0 <=? decodeLimit mdb (-1)) && (decodeLimit mdb (-1) <? rl')) eqn:EL; [discriminate|].
+  inversion H; subst rs' rl'.
+  destruct (rowParams_exact _ _ _ _ _ _ _ E) as [_ [_ [_ [_ [Hrl [Hrs [Hmax _]]]]]]].
+  subst limit. unfold decodeLimit in *. simpl in *.
+  destruct (mdb =? 0) eqn:Ez; destruct (p =? 2); lia.
+Qed.
+
+(* ... and a row that does not fit is rejected with the limit error, whatever maxLen *)
+Lemma row_bomb_fails : forall mdb p c b col c' b' col' maxLen rs rl bpp,
+  0 < mdb -> p <> 1 -> validPredictor p = true ->
+  flateParameters c b col = Ok (c', b', col') ->
+  predictorRowParams p c' b' col' = Ok (rs, rl, bpp) -> mdb < rl ->
+  rowGuard mdb (Some p) c b col maxLen = RErrLimit.
+Proof.
+  intros mdb p c b col c' b' col' maxLen rs rl bpp Hm Hp Hv Hf Hr Hl.
+  unfold rowGuard. destruct (p =? 1) eqn:E1; [lia|]. rewrite Hv. simpl. rewrite Hf, Hr.
+  unfold decodeLimit. simpl. destruct (mdb =? 0) eqn:Ez; [lia|].
+  destruct ((0 <=? mdb) && (mdb <? rl)) eqn:E; [reflexivity|lia].
+Qed.
+
 (* ---- decode call sites ---- *)
 Open Scope string_scope.
 (* FROZEN list (file, function) of call sites known to ignore conf.Limits.MaxDecodeBytes
@@ -229,12 +284,26 @@ Lemma osd_limit_plumbed :
      s_func s = "LazyObjectStreamObject.GetData").
 Proof.
   split; [apply forallb_forall; exact osd_constructions_ok|]. split.
-  - exists (mksite "pkg/pdfcpu/model/parse.go" "ObjectStreamDictWithLimits" "ObjectStreamDict{}" LConfigured).
+  - exists (mksite "pkg/pdfcpu/model/parse.go" "ObjectStreamDictWithLimits" "ObjectStreamDict{}" LConfigured MNone).
     split; [|split; reflexivity]. unfold osd_constructions. repeat (first [left; reflexivity | right]).
   - assert (H : forallb (fun s => negb (is_field s) || String.eqb (s_func s) "LazyObjectStreamObject.GetData")
                   decode_sites = true) by (vm_compute; reflexivity).
     intros s Hin Hf. apply (proj1 (forallb_forall _ _) H) in Hin. rewrite Hf in Hin. simpl in Hin.
     apply String.eqb_eq. exact Hin.
+Qed.
+
+(* partial decodes (maxLen >= 0) found in the sources; the harness drives a row bomb through each of them.
+   A new partial-decode caller breaks partial_sites_ok until it is listed here and given a bomb. *)
+Definition partial_sites_covered : list (string * string) :=
+  [("pkg/pdfcpu/read.go", "parseObjectStream")].
+Lemma partial_sites_ok :
+  forallb (fun s => negb (is_partial s) || existsb (fun a => same_site a s) partial_sites_covered) decode_sites = true.
+Proof. vm_compute. reflexivity. Qed.
+Lemma partial_sites_all : forall s, In s decode_sites -> is_partial s = true ->
+  existsb (fun a => same_site a s) partial_sites_covered = true.
+Proof.
+  intros s Hin Hp. pose proof (proj1 (forallb_forall _ _) partial_sites_ok s Hin) as H.
+  cbv beta in H. rewrite Hp in H. exact H.
 Qed.
 
 Definition encode_only : list (string * string) := [("pkg/pdfcpu/types/streamdict.go", "StreamDict.Encode")].
@@ -248,7 +317,7 @@ Proof. apply forallb_forall. exact decode_sites_ok. Qed.
 Lemma decode_sites_refuted : exists s, In s decode_sites /\ is_configured s = false /\
   site_ok encode_only s = false.
 Proof.
-  exists (mksite "pkg/pdfcpu/optimize.go" "removeEmptyContentStreams" "Decode" LDefault).
+  exists (mksite "pkg/pdfcpu/optimize.go" "removeEmptyContentStreams" "Decode" LDefault MFull).
   split; [|split; reflexivity].
   unfold decode_sites. repeat (first [left; reflexivity | right]).
 Qed.
